@@ -28,6 +28,8 @@ def case_fn(c):
         fails = oracle.check_inputs(c["model"], c["inputs"], c["vec"], solver=c.get("solver", "euler"), T=c.get("T", 1.0), dt=c.get("dt", 0.05))
     elif kind == "population":
         fails = oracle.check_population(c["ps"], T=c.get("T", 0.5), dt=c.get("dt", 0.05), solver=c.get("solver", "euler"))
+    elif kind == "jacobian":
+        fails = oracle.check_jacobian(c["model"], seed=c.get("seed", 0), sparse=c.get("sparse", False))
     elif kind == "outputs":
         fails = oracle.check_outputs(c["model"], c["request"], c["form"], c["vec"])
     else:
